@@ -210,14 +210,15 @@ def run(ctx):
     # ---------------- R9 what counts as a function, and how the operators are written
     ctx.rule("C13.R9", "every test for 'the right operand is a function' in the evaluator accepts built-ins and lambdas alike (is_callable, or is_lambda and is_built_in together; is_callable itself matches both variants): `xs where is_string`-style uses of a built-in work in the operator forms as in map/filter; and the printers write via / where / into with the words the grammar reads", floor=8)
     n_g = 0
+    from rules.panics import diverges as P_diverges
     for fn_ in (BINOP, EVAL):
         k_ = 0
         for n_ in H.walk(core.hir_fn(fn_)["body"]):
             if H.kind(n_) != "If":
                 continue
             names_ = sorted({x["name"] for x in H.walk(n_["cond"]) if H.kind(x) == "MethodCall" and x["name"] in ("is_callable", "is_lambda", "is_built_in")})
-            if not names_:
-                continue
+            if not names_ or not P_diverges(n_["then"]):
+                continue   # only tests that refuse the operand (the branch leaves with an error) say what counts as a function
             k_ += 1
             n_g += 1
             ok_ = names_ == ["is_callable"] or set(names_) >= {"is_lambda", "is_built_in"}
